@@ -423,6 +423,15 @@ void harness(void)
     VP_ASSERT(C04, vp_table_equals(&g_snap), "failed start leaks or loses a descriptor");
     VP_ASSERT(C05, vp_live_allocs == allocs0, "failed start leaks memory");
     VP_ASSERT(C06, p->handle == PROCESS_INVALID, "failed start leaves a pid in the handle");
+    /* a handle whose start failed is destroyed: everything is released, nothing is signalled */
+    int kills0 = vp_kill_calls;
+    vp_faults_left = 0;
+    reproc_t *df = reproc_destroy(p);
+    VP_ASSERT(C15, df == NULL, "destroy after a failed start does not return null");
+    VP_ASSERT(C15, vp_table_equals(&g_snap) && vp_live_allocs == allocs0 - 1 && vp_kill_calls == kills0,
+              "destroy after a failed start leaves descriptors or memory behind (or signals something)");
+    VP_ASSERT(C05, vp_table_equals(&g_snap) && vp_live_allocs == allocs0 - 1,
+              "failed start followed by destroy leaks a descriptor or memory");
   } else {
     VP_ASSERT(C04, vp_nchild == 1 && vp_c_state[0] == VP_C_FORKED && vp_c_resolved[0] >= 1 &&
                        vp_c_start_errno[0] == 0,
